@@ -354,6 +354,12 @@ def gen_bare_case(g, cid, opts=None):
         fc.inners.append(dict(fname=f"b{g.mark()}", ty=f"B{g.mark()}", leaves=[dict(name=f"i{g.mark()}", ty=r.choice(NUM), k=g.mark()) for _ in range(r.randint(1, 3))]))
     # counterpart-only leaves nobody maps: must survive into_existing untouched (and be Default in into)
     fc.extra = [dict(name=f"e{g.mark()}", ty=r.choice(NUM)) for _ in range(r.randint(0, 2))]
+    # the inner type may also write a counterpart field the outer struct maps itself (through its own #[ghosts]): the pour
+    # happens after the outer struct's own assignments, in every flavour, so the inner value wins
+    fc.overlap = None
+    if g.chance(0.5):
+        o = r.choice(fc.own)
+        fc.overlap = dict(inner=0, field=o["name"], ty=o["ty"], k=g.mark() % 90 + 1)
     fc.depth, fc.branching, fc.perm = 1, len(fc.inners), "n/a"
     return fc
 
@@ -373,6 +379,8 @@ def render_bare_module(fc, g, fallible, draws):
             # the inner type's own instructions carry a marker constant: routing through them is visible in the values
             bi.fields.append(Field(l["name"], l["ty"], [Instr("from", "map", container=None, member=None, action=f"~.wrapping_add({l['k'] % 50 + 1})", braced=False),
                                                         Instr("into", "map", container=None, member=None, action=f"~.wrapping_sub({l['k'] % 50 + 1})", braced=False)]))
+        if fc.overlap and fc.inners.index(b) == fc.overlap["inner"]:
+            bi.attrs.append(Instr("ghosts", "ghosts", container=None, entries=[dict(path=None, ident=fc.overlap["field"], action=str(fc.overlap["k"]))]))
         src = bi.render(derive="#[derive(Clone, Debug, PartialEq, Default, o2o::o2o)]")
         inputs.append(src)
         L.append(src)
@@ -406,7 +414,7 @@ def render_bare_module(fc, g, fallible, draws):
     L.append(f"fn ref_from(t: &T) -> {'Result<S, super::Er>' if fallible else 'S'} {{ {wrap('S { ' + ' '.join(sv) + ' }')} }}")
 
     def tvals(existing):
-        v = [f"{o['name']}: s.{o['name']}," for o in fc.own]
+        v = [(f"{o['name']}: s.{o['name']}," if not (fc.overlap and fc.overlap["field"] == o["name"]) else f"{o['name']}: {fc.overlap['k']},") for o in fc.own]
         for b in fc.inners:
             v += [f"{l['name']}: s.{b['fname']}.{l['name']}.wrapping_sub({l['k'] % 50 + 1})," for l in b["leaves"]]
         v += [(f"{e['name']}: pre.{e['name']}," if existing else f"{e['name']}: Default::default(),") for e in fc.extra]
